@@ -6,6 +6,7 @@ PROPS["C04"] = prop(
     "Generated range lists and generated publish/delete/query histories are compared with a reference model written from the statement; sampled, not exhaustive.",
     "Trusts the reference models in harness/types/c04_test.go and harness/world; store contract = verifmem (written from the MySQL adapter's SQL).",
     "5/C04", "types-pure+world",
-    [Unit("TestC04Normalize", "server/store/types", quick=50000, thorough=1000000, shards_quick=4, shards_thorough=16)],
+    [Unit("TestC04Normalize", "server/store/types", quick=50000, thorough=1000000, shards_quick=4, shards_thorough=16),
+     Unit("TestC04History", "server", quick=1500, thorough=80000, shards_quick=8, shards_thorough=16, timeout_quick=400)],
     ["ranges are sorted with RangeSorter before Normalize, as both callers do"],
 )
